@@ -586,11 +586,17 @@ class XPathToken(Token[ta.XPathTokenType]):
             # then the other operand is promoted to xs:double too.
             if isinstance(op1, UntypedAtomic):
                 if isinstance(op2, (int, decimal.Decimal)) and not isinstance(op2, bool):
-                    yield get_double(op1.value, self.parser.xsd_version), float(op2)
+                    try:
+                        yield get_double(op1.value, self.parser.xsd_version), float(op2)
+                    except OverflowError:
+                        yield get_double(op1.value), math.inf if op2 > 0 else -math.inf
                     continue
             elif isinstance(op2, UntypedAtomic):
                 if isinstance(op1, (int, decimal.Decimal)) and not isinstance(op1, bool):
-                    yield float(op1), get_double(op2.value, self.parser.xsd_version)
+                    try:
+                        yield float(op1), get_double(op2.value, self.parser.xsd_version)
+                    except OverflowError:
+                        yield math.inf if op1 > 0 else -math.inf, get_double(op2.value)
                     continue
 
             match op1:
